@@ -1,8 +1,6 @@
 package rules
 
 import (
-	"go/token"
-
 	"golang.org/x/tools/go/ssa"
 
 	"charonverif/internal/an"
@@ -86,77 +84,49 @@ func init() {
 func c07P9P10(c *rt.Ctx) {
 	k := newC07k(c)
 	c.Rule("P9", 1, func() {
-		fn := c.Fn("core/parsigdb.MemDB.store")
+		// every function that inserts into entries (directly or through helpers) and returns a list returns a private
+		// snapshot, never the stored slice
 		n := 0
-		for _, r := range an.Returns(fn) {
-			if len(r.Results) != 3 || r.Block().Comment == "recover" {
+		for _, fn := range k.ix.Funcs {
+			if fn.Parent() != nil || !k.growsEntries(fn) {
 				continue
 			}
-			rv := returnValues(r)
-			if an.IsNilConst(an.Resolve(rv[0])) {
+			res := fn.Signature.Results()
+			li := -1
+			for i := 0; i < res.Len(); i++ {
+				if an.TypeName(res.At(i).Type()) == "[]core.ParSignedData" && li < 0 {
+					li = i
+				}
+			}
+			if li < 0 {
 				continue
 			}
-			n++
-			v := k.freshList(rv[0], 0)
-			if v.st == c07bad {
-				v.why = "store hands the stored slice itself to the threshold matcher: the exempt-cap eviction filters that slice in place under a later lock, so the matcher can see a repeated or missing share"
+			for _, r := range an.Returns(fn) {
+				if len(r.Results) != res.Len() || r.Block().Comment == "recover" {
+					continue
+				}
+				rv := returnValues(r)
+				if an.IsNilConst(an.Resolve(rv[li])) || !k.touchesEntries(rv[li], 0, map[ssa.Value]bool{}) {
+					continue // not the per-key list (e.g. the matcher's result handed on)
+				}
+				n++
+				v := k.freshList(rv[li], 0)
+				if v.st == c07bad {
+					v.why = "store hands the stored slice itself to the threshold matcher: the exempt-cap eviction filters that slice in place under a later lock, so the matcher can see a repeated or missing share"
+				}
+				k.report("store returns a private snapshot", posOf(r), v)
 			}
-			k.report("store returns a private snapshot", posOf(r), v)
 		}
 		if n == 0 {
 			c.Bail("store: no non-nil list returned")
 		}
 	})
 	c.Rule("P10", 1, func() {
-		fn := c.Fn("core/parsigdb.MemDB.trackExemptUnsafe")
-		evict := c.Fn("core/parsigdb.MemDB.evictExemptShareEntryUnsafe")
-		var keyP *ssa.Parameter
-		for _, p := range evict.Params {
-			if an.TypeName(p.Type()) == "core/parsigdb.key" && keyP == nil {
-				keyP = p
-			}
+		if len(k.trackers()) == 0 {
+			c.Bail("no function writes exemptEntries back")
 		}
-		if keyP == nil {
-			c.Bail("evictExemptShareEntryUnsafe: no key parameter")
-		}
-		for _, call := range c.SomeCalls(fn, an.Static("core/parsigdb.MemDB.evictExemptShareEntryUnsafe"), "evictExemptShareEntryUnsafe", false) {
-			v := c07Unsure("origin of the evicted key is not recognised")
-			arg := an.Resolve(an.H07ArgFor(call, an.H07ParamIndex(keyP)))
-			if _, isParam := arg.(*ssa.Parameter); isParam {
-				v = c07Bad("")
-			}
-			if coll, idx, ok := an.H07ElemRef(arg); ok {
-				if n, isC := an.ConstInt(idx); !isC {
-					v = c07Unsure("evicted key is a tracked entry at a non-constant position")
-					if sub, ok := an.Resolve(idx).(*ssa.BinOp); ok && sub.Op == token.SUB && an.H07IsLen(sub.X) != nil {
-						v = c07Bad("") // counted from the end of the list: the newest entries
-					}
-				} else if n != 0 {
-					v = c07Bad("")
-				} else {
-					// the indexed list is the tracked list (lookup of exemptEntries, possibly appended)
-					x := an.Resolve(coll)
-					for i := 0; i < 4; i++ {
-						if ap, ok := c07isBuiltin(x, "append"); ok {
-							x = an.Resolve(ap.Call.Args[0])
-							continue
-						}
-						break
-					}
-					if c07exempt(x) {
-						v = c07Ok()
-					}
-				}
-			}
-			if ld, ok := arg.(*ssa.UnOp); ok && ld.Op == token.MUL && v.st == c07unsure {
-				if _, isAlloc := ld.X.(*ssa.Alloc); isAlloc {
-					v = c07Unsure("evicted key is a local assigned in several places")
-				}
-			}
-			if v.st == c07bad {
-				v.why = "the entry evicted at the cap is not element 0 of the tracked list: the partial just stored is deleted again (store still reports success) and threshold is never reached for new duties"
-			}
-			k.report("trackExemptUnsafe evicts the oldest tracked entry", call.Pos(), v)
+		if k.p10() == 0 {
+			c.Bail("no removal from entries is reached from the function that maintains exemptEntries")
 		}
 	})
 }
